@@ -125,6 +125,10 @@ def configs():
       'skip_bad': O(None, W8a, I, False, True),     # skip_checks
       'blockwise': O(None, T(4, True, qtyping.QuantGranularity.BLOCKWISE,
                              block_size=32), F, True),
+      # non-blockwise granularity WITH a block size: equal to no policy entry (a
+      # '*' rule lets it in; it must survive the JSON round trip unchanged)
+      'chan_bs32': O(None, T(8, True, qtyping.QuantGranularity.CHANNELWISE, block_size=32), I),
+      'skip_tens_bs16': O(None, T(8, True, qtyping.QuantGranularity.TENSORWISE, block_size=16), I, False, True),
       'none': None,
   }
 
